@@ -477,7 +477,7 @@ def _replay_hist_from_catalog():
 # the redshift estimate: sample k is built from sample k of every ingredient (the C04 units on the same functions)
 # ---------------------------------------------------------------------------------------------------------
 
-def _register_nz_units():
+def _register_shared_nz():
     from . import C04 as _C04
     unit(P, "RedshiftData.from_corrdata", fuc=["yaw.redshifts:RedshiftData.from_corrdata"],
          cases=[dict(ref=r, unk=u) for r in (False, True) for u in (False, True)], trusted=["np.tile+reshape identity"])(_C04.u_from_corrdata)
@@ -485,4 +485,4 @@ def _register_nz_units():
          cases=[dict(ref=r, unk=u) for r in (False, True) for u in (False, True)])(_C04.u_from_corrfuncs)
 
 
-_register_nz_units()
+# _register_shared_nz() is called by the driver after this module is fully imported (no import cycles)
